@@ -157,7 +157,8 @@ def step (s : St) (line : String) : St :=
       -- report the innermost expression only: an operand that already differs explains the difference
       let argsAgree := r.args.all fun j => rest.getD j "?" == BV4.toString (s.absXv.getD j [])
       if c != rt ∧ argsAgree then
-        s := s.propfail s!"val={k} op={opBase r.op} class=construction-time-vs-run-time full={r.op} params={r.params} construction={c.take 200} runtime={rt}"
+        let a := argsOf s s.absXv r
+        s := s.propfail s!"val={k} op={opBase r.op} class=construction-time-vs-run-time/{shapeClass r.op a r.params} full={r.op} params={r.params} construction={c.take 200} runtime={rt}"
     return s
   | "lit" :: rest => { s with litStr := " ".intercalate rest, ops := s.ops + 1, opHist := bump s.opHist "literal" }
   | ["->", r] => Id.run do
